@@ -101,6 +101,16 @@ TZIFY = _Marker("tzify")
 COMP = _Marker("component")
 
 
+class Obj:
+    """An instance of a helper class of the module under analysis (fields hold interpreter values)."""
+    def __init__(self, cls: ast.ClassDef):
+        self.cls = cls
+        self.fields: Dict[str, object] = {}
+
+    def __repr__(self):
+        return "<%s object>" % self.cls.name
+
+
 class Interp:
     def __init__(self, fn: ast.FunctionDef, sc: Scenario, where: str, resolver=None):
         self.fn = fn
@@ -142,10 +152,16 @@ class Interp:
             if isinstance(s.value, ast.Call) and (dotted(s.value.func) or "").startswith(("logging.", "logger.")):
                 return
             self.fail(s, "expression statement")
-        if isinstance(s, ast.Assign):
-            if len(s.targets) != 1 or not isinstance(s.targets[0], ast.Name):
-                self.fail(s, "assignment target")
-            self.env[s.targets[0].id] = self.ev(s.value)
+        if isinstance(s, (ast.Assign, ast.AnnAssign)):
+            if isinstance(s, ast.AnnAssign):
+                if s.value is None:
+                    return
+                tg = s.target
+            else:
+                if len(s.targets) != 1:
+                    self.fail(s, "assignment target")
+                tg = s.targets[0]
+            self.assign(tg, self.ev(s.value), s)
             return
         if isinstance(s, ast.If):
             if self.truth(self.ev(s.test), s.test):
@@ -171,6 +187,115 @@ class Interp:
         if isinstance(s, ast.Pass):
             return
         self.fail(s, type(s).__name__)
+
+    def assign(self, tg, v, s):
+        if isinstance(tg, ast.Name):
+            self.env[tg.id] = v
+            return
+        if isinstance(tg, ast.Attribute) and isinstance(tg.value, ast.Name) and isinstance(self.env.get(tg.value.id), Obj):
+            self.env[tg.value.id].fields[tg.attr] = v
+            return
+        if isinstance(tg, (ast.Tuple, ast.List)) and isinstance(v, tuple) and len(v) == len(tg.elts):
+            for t_, v_ in zip(tg.elts, v):
+                self.assign(t_, v_, s)
+            return
+        self.fail(s, "assignment target")
+
+    # -- helper classes of the module (a parameter object bundling start/end/tzify, a per-component tester ...) --
+    def _methods(self, cls: ast.ClassDef, seen=None) -> Dict[str, ast.FunctionDef]:
+        out: Dict[str, ast.FunctionDef] = {}
+        seen = seen or set()
+        if id(cls) in seen:
+            return out
+        seen.add(id(cls))
+        for b in reversed(cls.bases):
+            bn = dotted(b)
+            bc = self.resolver(bn) if (bn and self.resolver is not None) else None
+            if isinstance(bc, ast.ClassDef):
+                out.update(self._methods(bc, seen))
+        for st in cls.body:
+            if isinstance(st, ast.FunctionDef):
+                out[st.name] = st
+        return out
+
+    def _declared_fields(self, cls: ast.ClassDef) -> List[str]:
+        return [st.target.id for st in cls.body if isinstance(st, ast.AnnAssign) and isinstance(st.target, ast.Name)]
+
+    def call_function(self, fn: ast.FunctionDef, vals: list, kw: Dict[str, object], node, bound=None):
+        a = fn.args
+        params = list(a.posonlyargs) + list(a.args)
+        if a.vararg or a.kwarg or a.kwonlyargs:
+            self.fail(node, "helper call shape")
+        if bound is not None:
+            vals = [bound] + list(vals)
+        if len(vals) > len(params):
+            self.fail(node, "helper call shape")
+        env: Dict[str, object] = {}
+        for p_, v_ in zip(params, vals):
+            env[p_.arg] = v_
+        for k, v_ in kw.items():
+            if k in env or k not in [p_.arg for p_ in params]:
+                self.fail(node, "helper call shape")
+            env[k] = v_
+        saved = self.env
+        for p_, dflt in zip(params[len(params) - len(a.defaults):], a.defaults):
+            if p_.arg not in env:
+                self.env = {}
+                env[p_.arg] = self.ev(dflt)
+                self.env = saved
+        if any(p_.arg not in env for p_ in params):
+            self.fail(node, "helper call shape")
+        if self.depth >= 6:
+            self.fail(node, "helper nesting")
+        self.env = env
+        self.depth += 1
+        try:
+            self.block(fn.body)
+            return None
+        except Returned as r:
+            return r.value
+        finally:
+            self.depth -= 1
+            self.env = saved
+
+    def construct(self, cls: ast.ClassDef, vals: list, kw: Dict[str, object], node):
+        o = Obj(cls)
+        init = self._methods(cls).get("__init__")
+        if init is not None:
+            self.call_function(init, vals, kw, node, bound=o)
+            return o
+        names = self._declared_fields(cls)     # NamedTuple / dataclass: positional fields in declaration order
+        if len(vals) > len(names) or any(k not in names for k in kw):
+            self.fail(node, "constructor call shape")
+        for n_, v_ in zip(names, vals):
+            o.fields[n_] = v_
+        o.fields.update(kw)
+        if set(o.fields) != set(names):
+            self.fail(node, "constructor call shape")
+        return o
+
+    def tzify(self, e):
+        if len(e.args) != 1 or e.keywords:
+            self.fail(e, "tzify call shape")
+        v = self.ev(e.args[0])
+        if isinstance(v, DtValue):
+            return Term(v.name)
+        if isinstance(v, Term):
+            return v
+        self.fail(e, "tzify of %r" % (v,))
+
+    def _try_obj(self, x):
+        """The helper object *x* denotes, or None (never fails: the caller falls back to the other call forms)."""
+        if isinstance(x, ast.Name):
+            v = self.env.get(x.id)
+            return v if isinstance(v, Obj) else None
+        if isinstance(x, ast.Attribute):
+            b = self._try_obj(x.value)
+            v = b.fields.get(x.attr) if b is not None else None
+            return v if isinstance(v, Obj) else None
+        if isinstance(x, ast.Call) and self.resolver is not None and isinstance(self.resolver(dotted(x.func) or ""), ast.ClassDef):
+            return self.ev(x)
+        return None
 
     def as_bool(self, v, node):
         if isinstance(v, bool):
@@ -249,6 +374,10 @@ class Interp:
             return res
         if isinstance(e, ast.Attribute):
             base = self.ev(e.value)
+            if isinstance(base, Obj):
+                if e.attr in base.fields:
+                    return base.fields[e.attr]
+                self.fail(e, "unset field of %r" % (base,))
             if isinstance(base, Prop) and e.attr == "dt":
                 if base.name == "DURATION":
                     return Delta("DURATION")
@@ -281,12 +410,22 @@ class Interp:
                     return Prop(name)
                 return self.ev(e.args[1]) if len(e.args) > 1 else None
             if isinstance(e.func, ast.Name) and self.env.get(e.func.id) is TZIFY and len(e.args) == 1:
-                v = self.ev(e.args[0])
-                if isinstance(v, DtValue):
-                    return Term(v.name)
-                if isinstance(v, Term):
-                    return v
-                self.fail(e, "tzify of %r" % (v,))
+                return self.tzify(e)
+            if isinstance(e.func, ast.Attribute):
+                o = self._try_obj(e.func.value)
+                if o is not None:
+                    if e.func.attr in o.fields:
+                        if o.fields[e.func.attr] is TZIFY:
+                            return self.tzify(e)
+                        self.fail(e, "call of field %s" % e.func.attr)
+                    m = self._methods(o.cls).get(e.func.attr)
+                    if m is None:
+                        self.fail(e, "unknown method")
+                    decs = {(dotted(d_) or "") for d_ in m.decorator_list}
+                    if decs - {"staticmethod"}:
+                        self.fail(e, "decorated method")
+                    return self.call_function(m, [self.ev(x) for x in e.args], {k.arg: self.ev(k.value) for k in e.keywords if k.arg},
+                                              e, bound=None if "staticmethod" in decs else o)
             if d.split(".")[-1] == "timedelta":
                 if len(e.args) == 1 and isinstance(e.args[0], ast.Constant) and not e.keywords:
                     return Delta("lit", int(e.args[0].value))
@@ -311,6 +450,10 @@ class Interp:
                     return self.sc.isdt
                 self.fail(e, "isinstance")
             helper = self.resolver(d) if self.resolver is not None else None
+            if isinstance(helper, ast.ClassDef):
+                if any(k.arg is None for k in e.keywords):
+                    self.fail(e, "constructor call shape")
+                return self.construct(helper, [self.ev(x) for x in e.args], {k.arg: self.ev(k.value) for k in e.keywords}, e)
             if helper is not None and not e.keywords and self.depth < 4:
                 a = helper.args
                 if a.vararg or a.kwarg or a.kwonlyargs or len(a.args) < len(e.args) or len(a.args) - len(a.defaults) > len(e.args):
@@ -337,6 +480,8 @@ class Interp:
             return []
         if isinstance(e, ast.Tuple) and not e.elts:
             return []
+        if isinstance(e, ast.Tuple):
+            return tuple(self.ev(x) for x in e.elts)
         self.fail(e, type(e).__name__)
 
 
